@@ -39,13 +39,17 @@ def run(chk):
         n = rng.randint(1, 8)
         m = rng.randint(1, min(n, 5))
         xs = knots(rng, n)
-        kind = rng.choice(['random', 'rational', 'linear', 'recip'])
+        kind = rng.choice(['random', 'rational', 'linear', 'recip', 'linear', 'rational'])
+        zero_at = rng.choice(xs) if rng.random() < 0.3 else None     # the function has a root exactly at a knot
         if kind == 'random':
             ys = [complex(rng.gauss(0, 1), rng.gauss(0, 1)) for _ in xs]
             f = None
         elif kind == 'linear':
             a, b = complex(rng.gauss(0, 1e-6), rng.gauss(0, 1e-6)), complex(rng.gauss(0, 1), rng.gauss(0, 1))
-            f = lambda x, a=a, b=b: a * x + b
+            if zero_at is not None:
+                f = lambda x, a=a, z=zero_at: a * (x - z)
+            else:
+                f = lambda x, a=a, b=b: a * x + b
             ys = [f(x) for x in xs]
         elif kind == 'recip':
             a, c = complex(rng.gauss(0, 1), rng.gauss(0, 1)), rng.uniform(2e-7, 9e-7)
@@ -53,7 +57,10 @@ def run(chk):
             ys = [f(x) for x in xs]
         else:
             a, b, c = complex(rng.gauss(0, 1), rng.gauss(0, 1)), complex(rng.gauss(0, 1e-6), 0), rng.uniform(2e-7, 9e-7)
-            f = lambda x, a=a, b=b, c=c: (a + b * x) / (1 + c * x)
+            if zero_at is not None:
+                f = lambda x, b=b, c=c, z=zero_at: (b + 1e-6j) * (x - z) / (1 + c * x)
+            else:
+                f = lambda x, a=a, b=b, c=c: (a + b * x) / (1 + c * x)
             ys = [f(x) for x in xs]
         base = ' '.join(vlib.d2h(x) for x in xs) + ' ' + ' '.join(vlib.c2h(y) for y in ys)
         qs = [('knot', xs[k], k) for k in range(n)]
